@@ -42,30 +42,25 @@ var ObligatoryPrintDirectiveNames = []string{}
 
 func directiveInsertWordBreaks(value data.Value, args []data.Value) data.Value {
 	var (
-		input    = template.HTMLEscapeString(value.String())
+		input    = value.String()
 		maxChars = int(args[0].(data.Int))
 		chars    = 0
-		output   *bytes.Buffer // create the buffer lazily
+		output   bytes.Buffer
 	)
+	// Count the characters of the unescaped input, so that a character
+	// reference is never split, and escape each character as it is copied.
 	for i, ch := range input {
 		switch {
 		case ch == ' ':
 			chars = 0
 		case chars >= maxChars:
-			if output == nil {
-				output = bytes.NewBufferString(input[:i])
-			}
 			output.WriteString("<wbr>")
 			chars = 1
 		default:
 			chars++
 		}
-		if output != nil {
-			output.WriteRune(ch)
-		}
-	}
-	if output == nil {
-		return value
+		var _, size = utf8.DecodeRuneInString(input[i:])
+		template.HTMLEscape(&output, []byte(input[i:i+size]))
 	}
 	return data.String(output.String())
 }
